@@ -135,3 +135,95 @@ Contract(
     note="clause level: the result is the set of not-ignored keys with a clause that contains no literal of the model, provided "
     "cost is at least the number of such clauses (the early exit `counter == cost`)",
 )
+
+
+# =============================================================================================
+# Optimizer.exclude_violated at CLAUSE level: what the blocking clauses are.  For every key k of `violated` (helper
+# variable h_k = pool.id(k) >= 1): each clause of nf_cnf_dict[k] extended by the literal -h_k, and one last clause with
+# all the h_k.  (Read semantically: h_k may only be true where conditional k is not falsified, and some h_k must be
+# true -- i.e. not every conditional of `violated` is falsified: the assumed contract BLOCK.  That reading needs the
+# projection of the helper variables and is not proved here.)
+# =============================================================================================
+from pyvc import lib  # noqa: E402
+
+enumK, _eidx, cardK = L.enum_theory(L.Int)
+memC, _ = L.mem_theory(LInt.sort)  # a clause is a member of a clause list
+
+
+def Hk(k):
+    return lib.pid_key(k)
+
+
+# InKey(cls, h, x, m): x is one of the first m clauses of cls extended by -h
+InKey, _ = IT.defpred_some("InKey", [LLInt.sort, L.Int, LInt.sort, L.Int], lambda x: x[3], lambda x, c: x[2] == LInt.snoc(LLInt.at(x[0], c), -x[1]), lambda x, c: LLInt.at(x[0], c), step=True)
+# Gen(E, val, x, n): x is a blocking clause of one of the first n keys of the enumeration E
+Gen, _ = IT.defpred_some(
+    "GenBlock",
+    [LInt.sort, ValS, LInt.sort, L.Int],
+    lambda x: x[3],
+    lambda x, q: InKey(z3.Select(x[1], LInt.at(x[0], q)), Hk(LInt.at(x[0], q)), x[2], LLInt.len(z3.Select(x[1], LInt.at(x[0], q)))),
+    lambda x, q: LInt.at(x[0], q),
+    step=True,
+)
+
+
+def _helpers(hv, E, n, name):
+    q = z3.Int("_ev_q")
+    return [LInt.len(hv) == n, Forall([q], [LInt.at(hv, q)], z3.Implies(z3.And(0 <= q, q < n), LInt.at(hv, q) == Hk(LInt.at(E, q))), name)]
+
+
+def _body_is(rc, rhs_of, name, trig_of):
+    x = z3.Const("_ev_x", LInt.sort)
+    return IT.both([x], memC(rc, x), rhs_of(x), name, rhs_trigger=trig_of(x))
+
+
+def _ev_outer(s, j, pre):
+    d = _nf(s)
+    E = enumK(s.violated.t)
+    return _body_is(s.return_constraints.t, lambda x: Gen(E, d.val, x, j), "ev.outer", lambda x: Gen(E, d.val, x, j)) + _helpers(s.helper_variables_clause.t, E, j, "ev.outer.helpers")
+
+
+def _ev_inner(s, i, pre):
+    d = _nf(s)
+    cls = z3.Select(d.val, s.index.t)
+    return _body_is(
+        s.return_constraints.t,
+        lambda x: z3.Or(memC(pre.return_constraints.t, x), InKey(cls, s.hid.t, x, i)),
+        "ev.inner",
+        lambda x: InKey(cls, s.hid.t, x, i),
+    ) + [s.helper_variables_clause.t == pre.helper_variables_clause.t, s.hid.t == Hk(s.index.t)]
+
+
+def _ev_post(c, r):
+    d = _nf(c)
+    E = enumK(c.violated.t)
+    n = cardK(c.violated.t)
+    body = c.ghost["body"].t
+    helper = c.ghost["helper"].t
+    return [r.t == LLInt.snoc(body, helper)] + _body_is(body, lambda x: Gen(E, d.val, x, n), "exclude_violated.clauses", lambda x: Gen(E, d.val, x, n)) + _helpers(helper, E, n, "exclude_violated.helper.clause")
+
+
+EOPT = TObj("Optimizer", {"epistemic_state": TRec({"nf_cnf_dict": NFT, "pool": __import__("contracts.c_tseitin", fromlist=["_TPool"])._TPool()})})
+
+Contract(
+    "inference.optimizer:Optimizer.exclude_violated#impl",
+    params={"self": EOPT, "violated": TSet(TInt)},
+    returns=TList(TList(TInt)),
+    locals={"return_constraints": TList(TList(TInt)), "helper_variables_clause": TList(TInt)},
+    requires=lambda c: [Forall([z3.Int("_evr_k")], [z3.IsMember(z3.Int("_evr_k"), c.violated.t)], z3.Implies(z3.IsMember(z3.Int("_evr_k"), c.violated.t), mem_I(_nf(c).keys, z3.Int("_evr_k"))), "violated.are.keys")],
+    ensures=_ev_post,
+    ghost_out={"body": TList(TList(TInt)), "helper": TList(TInt)},
+    ghost_wit=lambda c, r: {
+        # the list returned is snoc(body, helper): the witness is read off the term
+        "body": VList(r.t.arg(0) if z3.is_app(r.t) and r.t.num_args() == 2 and r.t.arg(0).sort() == LLInt.sort else LLInt.nil, TList(TInt)),
+        "helper": c.helper_variables_clause,
+    },
+    loops={
+        0: LoopSpec("for index in violated", _ev_outer),
+        1: LoopSpec("for clause in nf_cnf_dict[index]", _ev_inner),
+    },
+    properties=["C03", "C04", "C05", "C11", "C15"],
+    fuel=4,
+    note="clause level: the result is, for every key k of `violated`, each clause of nf_cnf_dict[k] extended by -id(k), followed by "
+    "one clause with all the id(k) (ghost outputs: the two parts)",
+)
